@@ -102,6 +102,23 @@ func Run(r *core.Run) {
 	r.Assume("diagnostic order among fresh builds of one tree is C08's subject: a step whose fresh builds disagree among themselves is excluded (counted as flaky)")
 
 	var wg sync.WaitGroup
+	// --- directory enumeration / observation kinds (CacheWatch.tla) and the on-disk
+	// result of rebuilds (CacheDisk.tla): own trees, own histories, run beside the main pipeline
+	only := os.Getenv("C09_ONLY") // developer switch: main | enum | disk
+	wg.Add(1)
+	go func() {
+		defer wg.Done()
+		if only == "" || only == "enum" {
+			enumPhase(r)
+		}
+		if only == "" || only == "disk" {
+			diskPhase(r)
+		}
+	}()
+	if only != "" && only != "main" {
+		wg.Wait()
+		return
+	}
 	// --- model checking of the design and of the transcription of the code
 	wg.Add(1)
 	go func() {
@@ -550,7 +567,45 @@ func replayFile(r *core.Run) {
 		Detail struct {
 			Edits  []Edit       `json:"edits"`
 			Expect []StepExpect `json:"expect"`
+			Enum   *ECase       `json:"enum"`
+			Disk   *DCase       `json:"disk"`
 		} `json:"detail"`
+	}
+	if err := json.Unmarshal(data, &rf); err == nil && rf.Detail.Enum != nil {
+		c := *rf.Detail.Enum
+		name, _ := rf.Key["optset"].(string)
+		regime, _ := rf.Key["regime"].(string)
+		var cnt enumCounters
+		for _, os_ := range enumOptSets {
+			if os_.Name == name || name == "" {
+				out := replayEnum(filepath.Join(r.Scratch, "replay-"+os_.Name), c, os_, regime != "fresh")
+				for _, st := range out.Steps {
+					b, _ := json.Marshal(st)
+					r.Logf("%s", string(b))
+				}
+				judgeEnum(r, &cnt, c, os_.Name, regime != "fresh", out)
+			}
+		}
+		return
+	}
+	if err == nil && rf.Detail.Disk != nil {
+		c := *rf.Detail.Disk
+		name, _ := rf.Key["optset"].(string)
+		for i, os_ := range diskOptSets {
+			if os_.Name == name || name == "" {
+				out := replayDisk(filepath.Join(r.Scratch, fmt.Sprintf("replay-d%d", i)), c, i)
+				for si, st := range out.Steps {
+					b, _ := json.Marshal(st)
+					r.Logf("%s", string(b))
+					if d := st.DiskDiff + st.ResultDiff; d != "" {
+						r.Violation(map[string]interface{}{"tree": "disk", "history": c.String(), "optset": os_.Name, "check": "disk", "step": si + 1, "edit": st.Edit, "cause": "unpredicted"},
+							fmt.Sprintf("the output directory / result after Rebuild() differs from a fresh build after [%s] (step %d, %s): %s", c.String(), si+1, os_.Name, d), map[string]interface{}{"disk": c, "observed": out.Steps})
+					}
+				}
+				r.Case("replay-disk:"+c.String(), true)
+			}
+		}
+		return
 	}
 	if err := json.Unmarshal(data, &rf); err != nil || len(rf.Detail.Edits) == 0 {
 		r.Infra("replay file %s has no edit history (%v)", r.Replay, err)
